@@ -59,11 +59,12 @@ UNIT = {
  'name': 'parser_obj',
  'doc': 'object grammar (parser/mod.rs, parse_object.rs) against an ISO 32000-1 7.3 object function over the token function of unit lexer',
  'rlimit': 200, 'timeout': 2400,
- 'deviations': {
-   'DEV_STREAM_KEYWORD_COMMENT_NOT_SKIPPED': 'known finding of unit lexer (Lexer::next_stream does not skip a comment before the keyword `stream`); inherited through the restated contract of next_stream',
-   'DEV_DICT_KEY_NOT_DECODED': 'ISO 7.3.5/7.3.7: a dictionary key is a name, `#xx` stands for the byte xx; parse_dictionary_object takes the raw token bytes (`/A#42` is read as the key "A#42", not "AB")',
- },
+ 'deviations': {},
  'tolerances': {
+   # NOT a tolerance of this unit's property but a mirror of the known finding of unit lexer (known_findings.txt: lexer/Lexer::next_stream/
+   # stream_lf_or_crlf_only): the restated contract of Lexer::next_stream (stub) and the spec `stream_kw_pos` consult it together, so switching it
+   # off cannot fail here. Always on = the contract unit lexer proves on the current /repo. When that finding is repaired, delete this line.
+   'DEV_STREAM_KEYWORD_COMMENT_NOT_SKIPPED': 'mirror of the known finding of unit lexer: Lexer::next_stream does not skip a comment before the keyword `stream`',
    'DEV_LONE_DOT_IS_REAL': 'tolerance of unit lexer, restated with the contract of Substr::real_number',
    'DEV_REAL_PREFIX_ACCEPTED': 'tolerance of unit lexer, restated with the contract of Substr::real_number',
  },
@@ -104,6 +105,8 @@ UNIT = {
   'PdfString::new': {'kind': 'fn', 'file': PR, 'container': r'^impl PdfString$', 'name': 'new', 'props': ['C03'],
      'ensures': [('new_holds_data', 'r.data == data')]},
   # C06 placement: decrypt only when a decoder is present, with the id of the enclosing indirect object
+  'Primitive::into_name': {'kind': 'fn', 'file': PR, 'container': r'^impl Primitive$', 'name': 'into_name', 'props': ['C03'],
+     'ensures': [('name_only', 'match self { Primitive::Name(s) => r == Ok::<Name, PdfError>(Name(s)), _ => r is Err }')]},
   'Context::decrypt': {'kind': 'fn', 'file': P, 'container': r"^impl<'a> Context<'a>$", 'name': 'decrypt', 'props': ['C06'],
      'ensures': [('decrypt_only_with_decoder', 'match r { Ok(s) => ctx_decrypt(ctxv(Some(self)), old(data)@) == Some(s@), Err(_) => ctx_decrypt(ctxv(Some(self)), old(data)@) is None }')]},
 
@@ -212,6 +215,12 @@ UNIT = {
         {'rule': 'R3', 'find': 'lexeme: token.to_string(),', 'replace': ''},
         {'rule': 'R1', 'find': 'let token = t!(lexer.next());', 'replace': 'proof { lemma_dict_unfold(r, e0, lexer.pos as int, max_depth as nat, m); } let token = t!(lexer.next());'},
         {'rule': 'R1', 'find': 'if token.starts_with(blit("/")) {', 'replace': 'proof { lemma_starts_slash(token.slice@); } if token.starts_with(blit("/")) {'},
+        # the key is read through the name arm (since f033b21): the object at a `/` token is the name, whatever the context
+        {'rule': 'R1', 'regex': r'let key = t!\(parse_with_lexer_ctx\(lexer, r, None, ([\w:| ]+), max_depth\)\)\.into_name\(\)\?;',
+         'replace': 'let ghost ek = env_of(lexer, None::<&Context>); let ghost xn = obj_at(r, ek, lexer.pos as int, max_depth as nat);'
+                    ' proof { lemma_obj_name(r, ek, lexer.pos as int, max_depth as nat); lemma_obj_name(r, e0, lexer.pos as int, max_depth as nat);'
+                    ' if xn is Some && xn.unwrap().0 is Name { lemma_name_allowed(xn.unwrap().0->Name_0); } }'
+                    r' let key = t!(parse_with_lexer_ctx(lexer, r, None, \1, max_depth)).into_name()?;'},
         {'rule': 'R1', 'regex': r'let obj = t!\(parse_with_lexer_ctx\(lexer, r, ctx, ([\w:| ]+), max_depth\)\);',
          'replace': 'let ghost xk = obj_at(r, e0, lexer.pos as int, max_depth as nat);'
                     ' proof { if xk is Some { lemma_any_allows(xk.unwrap().0); } }'
